@@ -1,0 +1,151 @@
+//! Verification hooks, compiled only with the cargo feature `verif-hooks` (off by default).
+//!
+//! The hooks let an external harness observe, and decide the interleaving of, the spawn loop of the
+//! runner and the worker threads it creates. With the feature enabled and no table installed, every
+//! hook is a single atomic load followed by a return.
+
+use std::sync::atomic::{AtomicPtr, Ordering};
+
+/// The runner entry point which is being executed.
+#[derive(Clone, Copy, Debug, PartialEq, Eq)]
+pub enum Driver {
+    /// `Runner::run`
+    Run,
+    /// `Runner::run_map`
+    RunMap,
+    /// `Runner::reduce`
+    Reduce,
+}
+
+/// Decision points of the spawn loop.
+#[derive(Clone, Copy, Debug, PartialEq, Eq)]
+pub enum SpawnerPoint {
+    /// Right before `do_spawn` is evaluated (and hence before `has_more` is read).
+    BeforeDoSpawn,
+    /// Right before the lag.
+    BeforeLag,
+    /// Right after the lag, before `next_chunk_size` is evaluated.
+    BeforeNextChunk,
+    /// Right before the final, unconditional, spawn.
+    BeforeFinalSpawn,
+    /// Right after the final spawn, before any worker is joined.
+    BeforeJoin,
+}
+
+/// Information about one execution of a runner driver.
+#[derive(Clone, Copy, Debug)]
+pub struct RunInfo {
+    /// Driver which is executed.
+    pub driver: Driver,
+    /// Kind of the task: 0 collect, 1 early-return, 2 reduce.
+    pub task: u8,
+    /// Length of the input if known.
+    pub input_len: Option<usize>,
+    /// Upper bound on the number of threads computed by the runner.
+    pub max_num_threads: usize,
+    /// Whether the resolved chunk size is exact.
+    pub chunk_is_exact: bool,
+    /// Resolved (initial) chunk size.
+    pub chunk: usize,
+    /// Requested number of threads; `None` for `NumThreads::Auto`.
+    pub requested_num_threads: Option<usize>,
+}
+
+/// Table of hook functions.
+pub struct Hooks {
+    /// Called on the calling thread when a runner driver starts.
+    pub run_begin: fn(&RunInfo),
+    /// Called on the calling thread when a runner driver ends; the argument is `thread::panicking()`.
+    pub run_end: fn(bool),
+    /// Called on the calling thread at the decision points of the spawn loop, with the number of threads spawned so far.
+    pub spawner_point: fn(SpawnerPoint, usize),
+    /// Called on a worker thread as its first action, with the chunk size handed to it.
+    pub worker_enter: fn(usize),
+    /// Called on a worker thread as its last action; the argument is `thread::panicking()`.
+    pub worker_exit: fn(bool),
+    /// Overrides `std::thread::available_parallelism` when it returns `Some`.
+    pub available_parallelism: fn() -> Option<usize>,
+    /// When it returns true, the busy loop of the lag is skipped.
+    pub skip_lag: fn() -> bool,
+}
+
+static HOOKS: AtomicPtr<Hooks> = AtomicPtr::new(std::ptr::null_mut());
+
+/// Installs the table of hooks.
+pub fn install(hooks: &'static Hooks) {
+    HOOKS.store(hooks as *const Hooks as *mut Hooks, Ordering::SeqCst);
+}
+
+/// Uninstalls the table of hooks.
+pub fn uninstall() {
+    HOOKS.store(std::ptr::null_mut(), Ordering::SeqCst);
+}
+
+#[inline]
+fn hooks() -> Option<&'static Hooks> {
+    let ptr = HOOKS.load(Ordering::Acquire);
+    // SAFETY: the pointer is either null or derived from a `&'static Hooks` in `install`
+    unsafe { ptr.as_ref() }
+}
+
+pub(crate) struct RunGuard;
+
+impl Drop for RunGuard {
+    fn drop(&mut self) {
+        if let Some(h) = hooks() {
+            (h.run_end)(std::thread::panicking());
+        }
+    }
+}
+
+pub(crate) fn run_begin(info: RunInfo) -> RunGuard {
+    if let Some(h) = hooks() {
+        (h.run_begin)(&info);
+    }
+    RunGuard
+}
+
+pub(crate) fn spawner_point(point: SpawnerPoint, num_spawned: usize) {
+    if let Some(h) = hooks() {
+        (h.spawner_point)(point, num_spawned);
+    }
+}
+
+struct WorkerGuard;
+
+impl Drop for WorkerGuard {
+    fn drop(&mut self) {
+        if let Some(h) = hooks() {
+            (h.worker_exit)(std::thread::panicking());
+        }
+    }
+}
+
+pub(crate) fn wrap_task<F, Out>(task: &F) -> impl Fn(usize) -> Out + Sync + '_
+where
+    F: Fn(usize) -> Out + Sync,
+{
+    move |chunk_size| {
+        if let Some(h) = hooks() {
+            (h.worker_enter)(chunk_size);
+        }
+        let _guard = WorkerGuard;
+        task(chunk_size)
+    }
+}
+
+pub(crate) fn available_parallelism(
+    actual: std::io::Result<std::num::NonZeroUsize>,
+) -> std::io::Result<std::num::NonZeroUsize> {
+    match hooks()
+        .and_then(|h| (h.available_parallelism)())
+        .and_then(std::num::NonZeroUsize::new)
+    {
+        Some(x) => Ok(x),
+        None => actual,
+    }
+}
+
+pub(crate) fn skip_lag() -> bool {
+    hooks().map(|h| (h.skip_lag)()).unwrap_or(false)
+}
